@@ -8,3 +8,5 @@ import Blackbird.Props.C05
 #print axioms Blackbird.C05_complex_not_cast
 #print axioms Blackbird.C05_insert_positions
 #print axioms Blackbird.C05_legacy_positions_wrong
+#print axioms Blackbird.C05_redeclaration_replaces
+#print axioms Blackbird.C05_index_after_redeclaration
